@@ -245,6 +245,13 @@ def classify_fault(tok, line, thrower_of_crash=None):
     return out
 
 
+def sys_position(kv, state):
+    """structural class of a system call that changed something although it was rejected"""
+    if kv.get("dk", "").startswith("product"):
+        return "first_component_modified_before_the_second_rejects"     # (whatever the position of the offender)
+    return "offender_first" if state.endswith("offender_first") else "offender_after_applied_elements"
+
+
 def analyse_reject(rlines, verd, report, stats, samples):
     """rejected-call journal + verdicts of the Lean table -> findings through report(); returns (calls, thrown, histogram)"""
     rej_n = rej_thrown = 0
@@ -278,6 +285,12 @@ def analyse_reject(rlines, verd, report, stats, samples):
             v = verd.get(i)
             if v is None:
                 report(Finding(site, ["no_model_verdict"], "no verdict of the Lean table for: " + l[:200], l), "reject", rec)
+            elif v[0] == "MISMATCH" and "precond-system-unchanged" in v[1]:
+                # rejected with the right class, but something was applied before the exception left.  The position of the
+                # offender is part of the class: first = nothing should even have been looked at; later = the elements
+                # (or, for a product, the component) before it had already been applied
+                posn = sys_position(kv, state)
+                report(Finding(site, ["object_changed_by_rejected_call:" + posn, "state_" + state], "a rejected call changed an object involved (the Lean table says unchanged): " + l[:220], l), "reject", rec)
             elif v[0] == "MISMATCH":
                 cls = "accepted_but_model_rejects" if got == "none" else ("rejected_but_model_accepts" if "model=none" in v[1] else "wrong_exception_class")
                 report(Finding(site, [cls, "state_" + state.split(":")[1] if ":" in state else "state_" + state], "precondition table disagrees: %s | %s" % (v[1], l[:200]), l), "reject", rec)
@@ -286,7 +299,19 @@ def analyse_reject(rlines, verd, report, stats, samples):
         elif exp != got:
             cls = "accepted_instead_of_%s" % exp if got == "none" else ("throws_%s_instead_of_%s" % (got, exp))
             report(Finding(site, [cls, "state_" + state], "documented %s, observed %s: %s" % (exp, got, l[:200]), l), "reject", rec)
-        if got != "none":
+        sysline = exp == "sysmodel"
+        posn = sys_position(kv, state) if sysline else ""
+        if sysline and verd.get(i, ("",))[0] == "ok-representation-only":
+            stats["rejected_call_changed_representation_only"] += 1
+        if got != "none" and sysline:
+            # (whether anything changed is judged by the driver against the table, above)
+            if kv.get("ok") != "1":
+                report(Finding(site, ["object_not_OK_after_rejected_call:" + posn, "state_" + state], "OK() fails after a rejected call: " + l[:220], l), "reject", rec)
+            if kv.get("net") not in ("0,0", None):
+                report(Finding(site, ["rejected_call_leaks:" + posn, "state_" + state], "allocation balance of a rejected call is not zero (net=%s): %s" % (kv.get("net"), l[:200]), l), "reject", rec)
+            if kv.get("bad_free") not in ("0", None):
+                report(Finding(site, ["rejected_call_bad_free"], "bad free in a rejected call: " + l[:200], l), "reject", rec)
+        elif got != "none":
             if kv.get("dump_same") != "1" and kv.get("sem_same") != "1":
                 report(Finding(site, ["object_changed_by_rejected_call", "state_" + state], "an object involved in a rejected call changed value: " + l[:220], l), "reject", rec)
             elif kv.get("dump_same") != "1":
@@ -339,7 +364,7 @@ def run(ctx):
     verd = {}
     for l in r.stdout.splitlines():
         t = l.split(None, 2)
-        if t and t[0] in ("ok", "MISMATCH"):
+        if t and t[0] in ("ok", "MISMATCH", "ok-representation-only"):
             verd[int(t[1])] = (t[0], t[2] if len(t) > 2 else "")
     rej_n, rej_thrown, rej_hist = analyse_reject(rlines, verd, report, stats, samples)
 
